@@ -3,6 +3,7 @@ import GormModel.Model.WriteSet
 open Lean
 namespace Gorm.Drv
 open Gorm.WriteSet
+namespace HC10
 
 def c10Name? (j : Json) : Option Col := (jStr? j).map String.toList
 def c10Names? (j : Json) : Option (List Col) := do (← jArr? j).toList.mapM c10Name?
@@ -33,6 +34,8 @@ def c10KeyNil? (j : Json) : Option (Col × Bool) := do
 
 def c10Rows? (j : Json) : Option (List (List Col)) := do (← jArr? j).toList.mapM c10Names?
 
+end HC10
+open HC10 in
 /-- line-protocol handler for C10 (ops are JSON arrays `[opname, args…]`); returns `none` for ops it does not own -/
 def handleC10 (op : String) (args : Array Json) : Option Json := do
   match op with
